@@ -8,6 +8,7 @@ EXPLANATION = (
     "the maximum stage count; (R3) ModuleTree::add inserts after the last match of the parent, advancing past exactly the entries "
     "whose path is deeper than the parent (depth comparison, not text); (R4) at_sim_end runs in one flat in-order loop over the same "
     "vector, once per module; (R5) duplicate-path and missing-parent panics dominate context creation in SimBuilder::raw. "
+    '(R4 also: teardown does not depend on whether a module is active; R6) ObjectPath bookkeeping works on byte offsets — a character count is never used as an offset. '
     "Decides these necessary conditions only; not ObjectPath string bookkeeping.")
 ASSUMPTIONS = ["Vec::iter/into_iter traverse in index order; Vec::insert keeps relative order"]
 
